@@ -94,6 +94,16 @@ static void on_exec(const char *file)
 	sx_assert(ends == 0, "C19.pipe-end-leaked-into-child");
 }
 
+/* the reaper ran: handling it may have taken a while (slow machine, long callback): the next
+ * look at the clock can be past the next signalling tick */
+static void on_reap(int pid, int status)
+{
+	if (sx_choose(2)) {
+		sx_cover("popen.time-passes-after-reaping");
+		k_now.sec += 5;
+	}
+}
+
 static void do_close(void)
 {
 	sx_note("op:popen_close", 0);
@@ -132,6 +142,7 @@ void sx_main(void)
 	close_when = sx_choose(3);
 	p_kill_hook = on_kill;
 	p_exec_hook = on_exec;
+	p_reap_hook = on_reap;
 	p_signals_possible = 1;
 	p_opt_deliveries = 1;
 	k_env_exclude = sx_opt("poll", 0) ? "epoll-timerfd epoll ppoll" : NULL;
